@@ -30,6 +30,8 @@ def run(ctx: Ctx) -> None:
     _memo.rule_memo_sound(ctx, ['graphiq/noise/noise_models.py', 'graphiq/backends/compiler_base.py'])
     _memo.rule_falsy_zero(ctx, ['graphiq/noise/noise_models.py', 'graphiq/backends/compiler_base.py'])
     _memo.rule_arg_names(ctx, ['graphiq/noise/noise_models.py', 'graphiq/backends/compiler_base.py'])
+    _memo.rule_fixed_width(ctx, ['graphiq/noise/noise_models.py', 'graphiq/backends/compiler_base.py'])
+    _memo.rule_paste_incomplete(ctx, ['graphiq/noise/noise_models.py', 'graphiq/backends/compiler_base.py'])
     repo = ctx.repo
     effects.rule_backend_cover(ctx)
     effects.rule_noise_off(ctx)
@@ -51,6 +53,9 @@ def run(ctx: Ctx) -> None:
 
 
 KNOCKOUTS = [
+    Knockout("noisy-gates-target-falls-back-to-control", "graphiq/circuit/circuit_dag.py", sub_once("                        op.noise = [noise_object, noise_object]\n", "                        control_noise = noise_object\n                        target_noise = noise_object\n                        control_noise = mapping.get(name + \"_control\", control_noise)\n                        target_noise = mapping.get(name + \"_target\", control_noise)\n                        op.noise = [control_noise, target_noise]\n"), "paste.incomplete", "_noisy_gates"),
+    Knockout("depolarizing-y-replaced-by-phase", NM, sub_once("                transform.y_gate,\n", "                transform.phase_gate,\n"), "noise.pauli-set", "Pauli set"),
+    Knockout("depolarizing-dm-two-x", NM, sub_once("                dmf.sigmay(),\n                dmf.sigmaz(),\n            ]\n            kraus_ops_iter = itertools.product(single_qubit_kraus", "                dmf.sigmax(),\n                dmf.sigmaz(),\n            ]\n            kraus_ops_iter = itertools.product(single_qubit_kraus"), "noise.pauli-set", "Pauli set"),
     Knockout("branch-fidelity-unweighted", "graphiq/metrics.py", sub_once("[p_i * sfm.fidelity(tableau, t_i) for p_i, t_i in rep_data.mixture]", "[sfm.fidelity(tableau, t_i) for p_i, t_i in rep_data.mixture]"), "weight.fidelity", "not weighted"),
     Knockout("measurement-renormalises", "graphiq/backends/density_matrix/state.py", sub_once("probs[outcome] / np.sum(probs)", "probs[outcome]"), "weight.preserve", "renormalises a sub-normalised state", on_fixed_only=True),
     Knockout("noise-not-restored", CBASE, sub_nth("                            op.noise = noise_copy\n", "", 0), "effect.stale-swap-read", "not restored"),
@@ -73,7 +78,7 @@ KNOCKOUTS = [
              "sibling.noise-factor", "PhotonLoss"),
     Knockout("B6-depol-identity-not-first", NM,
              sub_once("            single_qubit_trans = [\n                transform.identity,\n                transform.x_gate,", "            single_qubit_trans = [\n                transform.x_gate,\n                transform.identity,"),
-             "sibling.noise-factor", "DepolarizingNoise"),
+             "noise.pauli-set", "DepolarizingNoise"),
     Knockout("E6-pauli-tag", NM, sub_once('                gate_list.append(("Y", reg_list[0]))', '                gate_list.append(("iY", reg_list[0]))'), "vocab.gates", "iY", on_fixed_only=False),
     Knockout("D2-compile-no-restore", CBASE, sub_nth("                            op.noise = noise_copy\n", "", 1), "effect.shared-op-store", "compile"),
 ]
